@@ -202,6 +202,7 @@ func storeTargetName(p *Program, st *ssa.Store) string {
 
 type mustCallAn struct {
 	p            *Program
+	extTargets   map[string]bool // full names of library functions that count as the recording effect
 	storeTargets map[string]bool
 	targets      map[*ssa.Function]bool
 	memo         map[*ssa.Function]int // 1 always, 2 not always
@@ -283,6 +284,9 @@ func (m *mustCallAn) flow(fn *ssa.Function) *mcFlow {
 				s = 2
 			}
 			if ci, ok := ins.(*ssa.Call); ok {
+				if cal := ci.Call.StaticCallee(); cal != nil && m.extTargets[fullFuncName(cal)] {
+					s = 2
+				}
 				cs := m.p.Callees(ci)
 				if len(cs) > 0 {
 					all := true
@@ -390,6 +394,14 @@ func runMustCall(p *Program, c *Collector, mc MustCallSpec) {
 			}
 			m.storeTargets[t] = true
 			names = append(names, t)
+			continue
+		}
+		if strings.HasPrefix(t, "ext:") {
+			if m.extTargets == nil {
+				m.extTargets = map[string]bool{}
+			}
+			m.extTargets[strings.TrimPrefix(t, "ext:")] = true
+			names = append(names, strings.TrimPrefix(t, "ext:"))
 			continue
 		}
 		tf := p.Func(t)
